@@ -258,6 +258,13 @@ func checkC09(c *C09Case, st *VStats) *VFailure {
 			if fmt.Sprint(got) != fmt.Sprint(want) {
 				return vfail("diff format %s encodes different entries than the computed diff\ncomputed: %v\nencoded:  %v", f, want, got)
 			}
+			if f == "dot" {
+				// dot carries the workload annotations as node colours: every peer of an entry is declared exactly once, new
+				// workloads green, removed ones red, all others blue
+				if fl := dotDiffNodes(d.Out, d.Ents); fl != nil {
+					return fl
+				}
+			}
 			st.Points(len(want))
 		}
 		if len(dapi) >= 2 {
@@ -267,6 +274,53 @@ func checkC09(c *C09Case, st *VStats) *VFailure {
 	}
 	if nontrivial {
 		st.NonTrivialCase(c)
+	}
+	return nil
+}
+
+var dotNode = regexp.MustCompile(`^\t+"((?:[^"\\]|\\.)*)" \[label="((?:[^"\\]|\\.)*)" color="([^"]*)" fontcolor="([^"]*)"\]$`)
+
+func dotDiffNodes(out string, ents []DEnt) *VFailure {
+	nodes := map[string][]string{}
+	for _, l := range strings.Split(out, "\n") {
+		if m := dotNode.FindStringSubmatch(l); m != nil {
+			if m[3] != m[4] {
+				return vfail("dot diff node %q has colour %q but font colour %q", m[1], m[3], m[4])
+			}
+			nodes[m[1]] = append(nodes[m[1]], m[3])
+		}
+	}
+	want := map[string]string{}
+	for _, e := range ents {
+		for _, x := range []struct {
+			p  string
+			nw bool
+		}{{e.Src, e.NewSrc}, {e.Dst, e.NewDst}} {
+			col := "blue"
+			if x.nw && e.Typ == "added" {
+				col = "#008000"
+			}
+			if x.nw && e.Typ == "removed" {
+				col = "red"
+			}
+			if old, ok := want[x.p]; ok && old != col && old != "blue" && col != "blue" {
+				return vfail("the computed diff marks %s both as a new and as a removed workload", x.p)
+			}
+			if want[x.p] == "" || col != "blue" {
+				want[x.p] = col
+			}
+		}
+	}
+	for p, col := range want {
+		got := nodes[p]
+		if len(got) != 1 || got[0] != col {
+			return vfail("diff format dot: peer %s of the computed diff should be declared once with colour %q (new=green, removed=red, else blue); node declarations found: %q", p, col, got)
+		}
+	}
+	for p := range nodes {
+		if _, ok := want[p]; !ok {
+			return vfail("diff format dot declares a node %q that is no peer of any computed entry", p)
+		}
 	}
 	return nil
 }
